@@ -533,6 +533,10 @@ func RunDriver(o DriverOpts) int {
 		}
 		return 2
 	}
+	if len(samples) == 0 {
+		fmt.Printf("INCONCLUSIVE property=%s reason=no sample case was recorded\n", p.ID)
+		return 2
+	}
 	if total.Evals == 0 || distinct < 2 {
 		fmt.Printf("INCONCLUSIVE property=%s reason=monitors observed nothing (evaluations=%d distinct=%d)\n", p.ID, total.Evals, distinct)
 		return 2
